@@ -168,6 +168,7 @@ class Config:
     loop_iters: int = 1
     while_iters: int = 2
     record_ext: bool = True
+    structured_fstrings: bool = False
 
 
 class Interp:
@@ -427,7 +428,23 @@ class Interp:
                             pass
             finally:
                 self.nofork -= 1
-        return Sym(f"fstr@{self.site(node)}", TypeRef(prim="str"))
+        parts = None
+        if getattr(self.cfg, "structured_fstrings", False) and not has_call:
+            # keep what the text is made of (constants and the values of plain names / attributes), for value-flow rules
+            self.nofork += 1
+            try:
+                segs = []
+                for val in node.values:
+                    if isinstance(val, ast.Constant):
+                        segs.append(Const(val.value))
+                    elif isinstance(val, ast.FormattedValue) and val.format_spec is None and val.conversion == -1:
+                        segs.append(self.eval(val.value, frame))
+                    else:
+                        segs.append(Unknown("fmt"))
+                parts = ("CONCAT", tuple(segs))
+            finally:
+                self.nofork -= 1
+        return Sym(f"fstr@{self.site(node)}", TypeRef(prim="str"), parts=parts or ())
 
     def e_FormattedValue(self, node, frame):
         return Sym("fmt", TypeRef(prim="str"))
@@ -542,7 +559,7 @@ class Interp:
                 return base.items[idx.value]
             except IndexError:
                 raise _Raise(Obj(None, builtin_cls="builtins.IndexError"), self.site(node)) from None
-        return Sym(f"{base.key()}[{idx.key()}]")
+        return Sym(f"{base.key()}[{idx.key()}]", None, parts=("SUBSCRIPT", base, node.slice))
 
     def e_Slice(self, node, frame):
         return Unknown("slice")
@@ -944,7 +961,12 @@ class Interp:
                 if fn is not None and not _is_stub(fn):
                     return self.call_function(fn, callee, args, kwargs, None, None, node)
             if callee.parts and callee.parts[0] == "ATTR":
-                # method on an untyped receiver
+                # method on an untyped receiver: class-hierarchy fallback - a name that exactly one SDK class defines as a method
+                owner = self._unique_method_owner(callee.parts[2])
+                if owner is not None:
+                    recv = callee.parts[1]
+                    typed = Sym(recv.k, TypeRef(classes=(owner.fq,))) if isinstance(recv, Sym) else recv
+                    return self.call_funcval(FuncVal(owner.find_method(callee.parts[2]), self_val=typed), args, kwargs, node)
                 return self.ext_method_call(BoundExt(callee.parts[1], callee.parts[2]), args, kwargs, node)
             ret = callee.typ.ret if callee.typ is not None else None
             return self.user_call(callee.k, ret, args, kwargs, node)
@@ -953,6 +975,21 @@ class Interp:
         if isinstance(callee, SeqVal):
             return Unknown("call-seq")
         return Unknown("call")
+
+    _GENERIC_METHOD_NAMES = frozenset("""get put set wait clear add append extend update items keys values copy pop discard remove close
+        result cancel cancelled done submit shutdown join start run acquire release encode decode format strip split lower upper
+        serialize deserialize execute process to_dict from_dict to_json_dict from_json_dict""".split())
+
+    def _unique_method_owner(self, name: str):
+        if name.startswith("__") or name in self._GENERIC_METHOD_NAMES:
+            return None
+        cache = self.prog.__dict__.setdefault("_unique_method_cache", {})
+        if name not in cache:
+            owners = [ci for ci in self.prog.classes.values() if name in ci.methods and ci.methods[name].kind not in ("staticmethod", "classmethod", "property")]
+            # a method overridden along one hierarchy still counts as one owner (the root)
+            roots = [ci for ci in owners if not any(o is not ci and self.prog.is_subclass(ci.fq, o.fq) for o in owners)]
+            cache[name] = roots[0] if len(roots) == 1 and len(owners) == 1 else None
+        return cache[name]
 
     def call_funcval(self, fv: FuncVal, args, kwargs, node) -> V:
         fn = fv.fn
